@@ -33,7 +33,7 @@ func vReadCheck(read func([]byte) (int, error), s *vStreamSpec, reads int) {
 	for i := 0; i < reads; i++ {
 		m := vInt("bufsize")
 		vAssume(m >= 1 && m <= 70000)
-		buf := make([]byte, m)
+		buf := vWindow(m)
 		if pos >= s.total() {
 			return
 		}
@@ -130,6 +130,7 @@ func vStepCheck(tail, rec, buf []byte, n int, err error, m int, carry []byte, wi
 		if j >= 0 && j < n && j < t {
 			vAssert(buf[j] == tail[j], "bytes read differ from the pending bytes")
 		}
+		vScribble(buf)
 		vAssert(len(carry) == t-n, "carry-over after the read is not the unread tail (bytes lost or duplicated)")
 		k := vInt("k")
 		if k >= 0 && k < len(carry) && n+k < t {
@@ -144,6 +145,7 @@ func vStepCheck(tail, rec, buf []byte, n int, err error, m int, carry []byte, wi
 	if j >= 0 && j < n && j < r {
 		vAssert(buf[j] == rec[j], "bytes read differ from the record")
 	}
+	vScribble(buf)
 	vAssert(len(carry) == r-n, "carry-over after the read is not the unread tail of the record (bytes lost or duplicated)")
 	k := vInt("k")
 	if k >= 0 && k < len(carry) && n+k < r {
@@ -160,7 +162,32 @@ func vTail() []byte {
 func vBuf() ([]byte, int) {
 	m := vInt("bufsize")
 	vAssume(m >= 1 && m <= 70000)
-	return make([]byte, m), m
+	return vWindow(m), m
+}
+
+// vWindow returns a read buffer of length m that is a window of a larger
+// allocation (70000 bytes of spare capacity), as the buffers handed to
+// Read by io.ReadFull(conn, scratch[:4]), io.CopyN or a framing reader with
+// one scratch array are. Read may use len(b) bytes, not cap(b).
+func vWindow(m int) []byte {
+	return make([]byte, m, m+70000)
+}
+
+// vScribble: once Read has returned, the buffer (all of its backing array) is
+// the caller's again: it composes its reply there, wipes it, hands it back to a
+// pool. Whatever the connection still has to deliver must not live in it.
+func vScribble(buf []byte) {
+	full := buf[:cap(buf)]
+	copy(full, vStream("scribble", len(full)))
+}
+
+// vBeyond: nothing was written behind the window.
+func vBeyond(buf []byte) {
+	full := buf[:cap(buf)]
+	i := vInt("beyond")
+	if i >= len(buf) && i < len(full) {
+		vAssert(full[i] == 0, "Read wrote behind the end of the buffer it was given (len(b), not cap(b), is what the caller offered)")
+	}
 }
 
 // VH_C15_GrpcStep: NoiseGrpcConn.Read.
@@ -326,7 +353,7 @@ func VH_C15_KitReads() {
 	for r := 0; r < 2; r++ {
 		c := vInt("bufsize")
 		vAssume(c >= 1 && c <= 70000)
-		buf := make([]byte, c)
+		buf := vWindow(c)
 		n, err := k.Read(buf)
 		vAssert(err == nil, "Read failed on a healthy connection with unread data")
 		if err != nil {
@@ -366,7 +393,7 @@ func VH_C15_TcpDuplex() {
 	for r := 0; r < 2 && pos < len(rec); r++ {
 		m := vInt("bufsize")
 		vAssume(m >= 1 && m <= 70000)
-		buf := make([]byte, m)
+		buf := vWindow(m)
 		n, err := c.Read(buf)
 		vAssert(err == nil, "Read failed on a healthy stream with unread data")
 		if err != nil {
